@@ -141,11 +141,18 @@ struct Sweep {
   std::map<std::string, uint64_t> sigs; std::map<std::string, uint64_t> outcomes;
   explicit Sweep(const char *n) : name(n) { const char *e = getenv("VERIF_DEADLINE_S"); double d = e ? atof(e) : 600; deadline = real_now_s() + d;
     strncpy(hx::g_cur_tag, "C20-sweep", sizeof hx::g_cur_tag - 1); hx::set_current(std::string(n) + " (input sweep)"); watchdog((unsigned)d + 120); }
-  void viol(const std::string &sig, const std::string &replay) { viols++; uint64_t &n = sigs[sig]; if (++n <= 3) { printf("@VIOL sig=%s :: %s\n", sig.c_str(), replay.c_str()); fflush(stdout); } }
+  // the replay text is only built for the (at most 3) occurrences of a signature that are printed
+  template <class F> void viol(const char *kind, const char *what, F &&replay) { viols++; std::string sig = std::string(kind) + what; uint64_t &n = sigs[sig]; if (++n <= 3) { std::string r = replay(); printf("@VIOL sig=%s :: %s\n", sig.c_str(), r.c_str()); fflush(stdout); } }
+  void viol(const std::string &sig, const std::string &replay) { viol(sig.c_str(), "", [&] { return replay; }); }
   void sample(const std::string &s) { if (samples++ < 2) printf("@SAMPLE %s: %s\n", name, s.c_str()); }
   bool expired() { if (!capped && real_now_s() > deadline) { capped = true; printf("@CAP %s: deadline reached after %" PRIu64 " evaluations\n", name, evals); } return capped; }
   void outcome(const std::string &o) { outcomes[o]++; }
+  uint64_t oc[2][12] = {};
+  void outcome_id(int a, int b) { oc[a][b]++; }
   void finish() {
+    static const char *dn[12] = {"0", "1", "2", "3", "4", "5", "6", "7", "8", "9..49", "50..366", ">=367"};
+    if (oc[0][0]) outcomes["not-found"]++;
+    for (int i = 0; i < 12; i++) if (oc[1][i]) outcomes[std::string("found dist_days=") + dn[i]]++;
     for (auto &o : outcomes) printf("@OUTCOME %s: %s\n", name, o.first.c_str());
     for (auto &s : sigs) printf("@INFO %s: signature %s seen %" PRIu64 " times\n", name, s.first.c_str(), s.second);
     printf("@STAT states=%" PRIu64 " transitions=%" PRIu64 " executions=%" PRIu64 " violations=%" PRIu64 " skipped_out_of_domain=%" PRIu64 " not_found_answers=%" PRIu64 "\n", evals, evals, evals, viols, skipped, notfound);
@@ -156,18 +163,19 @@ static std::string fmt(const char *f, ...) { char b[600]; va_list ap; va_start(a
 
 // Judge one answer of a next-instant computation against the reference.  `now`/`got`/`ref` are in the same time
 // scale (local for probe calls, UTC for activeTimer calls); ref < 0 = no matching instant inside the horizon.
-static void judge(Sweep &sw, const char *kind, bool ok, int64_t now, int64_t got, int64_t ref, const std::string &input) {
+template <class F>
+static void judge(Sweep &sw, const char *kind, bool ok, int64_t now, int64_t got, int64_t ref, F &&input) {
   sw.evals++;
   if (ref < 0) {
-    if (ok) sw.viol(std::string(kind) + "-next-found-but-no-matching-instant", input + fmt(" got=%" PRId64 " ref=none", got));
-    else { sw.notfound++; sw.outcome("not-found"); }
+    if (ok) sw.viol(kind, "-next-found-but-no-matching-instant", [&] { return input() + fmt(" got=%" PRId64 " ref=none", got); });
+    else { sw.notfound++; sw.outcome_id(0, 0); }
     return;
   }
-  if (!ok) { sw.viol(std::string(kind) + "-next-not-found-but-instant-exists", input + fmt(" ref=%" PRId64, ref)); return; }
-  if (got == ref) { int64_t d = (ref - now) / DAY; sw.outcome(fmt("found dist_days=%s", d < 9 ? std::to_string(d).c_str() : d < 50 ? "9..49" : d < 367 ? "50..366" : ">=367")); return; }
-  if (got <= now) sw.viol(std::string(kind) + "-next-not-strictly-after-now", input + fmt(" got=%" PRId64 " ref=%" PRId64, got, ref));
-  else if (got > ref) sw.viol(std::string(kind) + "-next-not-earliest", input + fmt(" got=%" PRId64 " ref=%" PRId64 " (late by %" PRId64 " s)", got, ref, got - ref));
-  else sw.viol(std::string(kind) + "-next-not-a-matching-instant", input + fmt(" got=%" PRId64 " ref=%" PRId64, got, ref));
+  if (!ok) { sw.viol(kind, "-next-not-found-but-instant-exists", [&] { return input() + fmt(" ref=%" PRId64, ref); }); return; }
+  if (got == ref) { int64_t d = (ref - now) / DAY; sw.outcome_id(1, d < 9 ? (int)d : d < 50 ? 9 : d < 367 ? 10 : 11); return; }
+  if (got <= now) sw.viol(kind, "-next-not-strictly-after-now", [&] { return input() + fmt(" got=%" PRId64 " ref=%" PRId64, got, ref); });
+  else if (got > ref) sw.viol(kind, "-next-not-earliest", [&] { return input() + fmt(" got=%" PRId64 " ref=%" PRId64 " (late by %" PRId64 " s)", got, ref, got - ref); });
+  else sw.viol(kind, "-next-not-a-matching-instant", [&] { return input() + fmt(" got=%" PRId64 " ref=%" PRId64, got, ref); });
 }
 
 // the base weeks: epoch 0, the week straddling 2^31, and the last week whose instants are all in the domain
@@ -184,11 +192,12 @@ static Armed arm_at(Alarm &a, event::Loop *loop, int64_t now_ms, int tz_min, uin
   if (++since_pass >= 200) { since_pass = 0; if (a.isEnabled()) a.disable(); loop->runNext([] {}); loop->runLoop(event::Loop::Mode::kOnce); }   // drain the deferred timer frees (alarm disarmed: no callback can run here)
   return r;
 }
-static void judge_delay(Sweep &sw, const char *kind, const Armed &r, int64_t now_ms, const std::string &input) {
+template <class F>
+static void judge_delay(Sweep &sw, const char *kind, const Armed &r, int64_t now_ms, F &&input) {
   if (!r.ok) return;
   int64_t dist = r.target * 1000 - now_ms;
-  if (r.delay_ms < dist) sw.viol(std::string(dist > 0xffffffffLL ? "alarm-delay-ms-overflow-32bit" : "alarm-delay-shorter-than-distance"), input + fmt(" target=%" PRId64 " armed_delay_ms=%" PRId64 " distance_ms=%" PRId64, r.target, r.delay_ms, dist));
-  if ((int64_t)r.remain != r.target - now_ms / 1000) sw.viol(std::string(kind) + "-remainSeconds-mismatch", input + fmt(" remain=%u", r.remain));
+  if (r.delay_ms < dist) sw.viol(dist > 0xffffffffLL ? "alarm-delay-ms-overflow-32bit" : "alarm-delay-shorter-than-distance", "", [&] { return input() + fmt(" target=%" PRId64 " armed_delay_ms=%" PRId64 " distance_ms=%" PRId64, r.target, r.delay_ms, dist); });
+  if ((int64_t)r.remain != r.target - now_ms / 1000) sw.viol(kind, "-remainSeconds-mismatch", [&] { return input() + fmt(" remain=%u", r.remain); });
 }
 
 // ------------------------------------------------------------------------------------------------
@@ -226,7 +235,7 @@ static int sweep_weekly_full(int part, int nparts, bool thorough) {
           uint32_t got = 0; bool ok = a.calculateNextLocalTimeSec((uint32_t)t, got);
           if (ok && (int64_t)got == r) { sw.evals++; continue; }     // fast path; everything else goes through judge()
           if (!ok && r < 0) { sw.evals++; sw.notfound++; continue; }
-          judge(sw, "weekly", ok, t, got, r, fmt("weekly sod=%d mask=%s(bit0=Sun) tz=0 now_local=%" PRId64, sd.sod, mask_str(mask).c_str(), t));
+          judge(sw, "weekly", ok, t, got, r, [&] { return fmt("weekly sod=%d mask=%s(bit0=Sun) tz=0 now_local=%" PRId64, sd.sod, mask_str(mask).c_str(), t); });
         }
         // cross-check the fast list reference against the plain day-scan on a few points, and sample
         for (int64_t t : {base, base + 86399, base + WEEK - 1}) {
@@ -269,7 +278,7 @@ static int sweep_weekly_tz(int part, int nparts, bool thorough) {
               if (now < 0 || now + tz < 0 || now >= DOMAIN_END) { sw.skipped++; continue; }
               int64_t now_ms = now * 1000 + ((now & 2) ? 999 : 0);
               Armed r = arm_at(a, loop, now_ms, tzm, since_pass);
-              std::string in = fmt("weekly(activeTimer) sod=%d mask=%s(bit0=Sun) tz_min=%d now_utc=%" PRId64 ".%03d", sod, mask_str(mask).c_str(), tzm, now, (int)(now_ms % 1000));
+              auto in = [&] { return fmt("weekly(activeTimer) sod=%d mask=%s(bit0=Sun) tz_min=%d now_utc=%" PRId64 ".%03d", sod, mask_str(mask).c_str(), tzm, now, (int)(now_ms % 1000)); };
               judge(sw, "weekly", r.ok, now, r.target, ref.next_utc(now, tz), in);
               judge_delay(sw, "weekly", r, now_ms, in);
             }
@@ -300,7 +309,7 @@ static int sweep_oneshot(int part, int nparts, bool thorough) {
         uint32_t got = 0; bool ok = a.calculateNextLocalTimeSec((uint32_t)t, got);
         int64_t r = ref.next_local(t);
         if (ok && (int64_t)got == r) { sw.evals++; continue; }
-        judge(sw, "oneshot", ok, t, got, r, fmt("oneshot sod=%d tz=0 now_local=%" PRId64, sod, t));
+        judge(sw, "oneshot", ok, t, got, r, [&] { return fmt("oneshot sod=%d tz=0 now_local=%" PRId64, sod, t); });
       }
       sw.outcome("found==reference (<=1 day ahead)");
     }
@@ -312,7 +321,7 @@ static int sweep_oneshot(int part, int nparts, bool thorough) {
       for (int64_t base : {BASE_LO + DAY, BASE_MID, DOMAIN_END - 2 * DAY}) { int64_t d0 = fdiv(base, DAY) * DAY;
         for (int64_t anchor : {d0, d0 + sod, d0 + DAY}) for (int e = -2; e <= 2; e++) {
           int64_t t = anchor + e; uint32_t got = 0; bool ok = a.calculateNextLocalTimeSec((uint32_t)t, got);
-          judge(sw, "oneshot", ok, t, got, ref.next_local(t), fmt("oneshot sod=%d tz=0 now_local=%" PRId64, sod, t));
+          judge(sw, "oneshot", ok, t, got, ref.next_local(t), [&] { return fmt("oneshot sod=%d tz=0 now_local=%" PRId64, sod, t); });
         } }
     }
     // (c) through activeTimer with every tz offset
@@ -324,7 +333,7 @@ static int sweep_oneshot(int part, int nparts, bool thorough) {
             int64_t now = anchor + e; if (now < 0 || now + tzm * 60 < 0 || now >= DOMAIN_END) { sw.skipped++; continue; }
             int64_t now_ms = now * 1000 + (e & 1 ? 250 : 0);
             Armed r = arm_at(a, loop, now_ms, tzm, since_pass);
-            std::string in = fmt("oneshot(activeTimer) sod=%d tz_min=%d now_utc=%" PRId64 ".%03d", sod, tzm, now, (int)(now_ms % 1000));
+            auto in = [&] { return fmt("oneshot(activeTimer) sod=%d tz_min=%d now_utc=%" PRId64 ".%03d", sod, tzm, now, (int)(now_ms % 1000)); };
             judge(sw, "oneshot", r.ok, now, r.target, ref.next_utc(now, tzm * 60), in); judge_delay(sw, "oneshot", r, now_ms, in);
           } }
       }
@@ -372,7 +381,7 @@ static int sweep_workday(int part, int nparts, bool thorough) {
           for (int64_t d = bd; d < bd + 12; d++) for (int64_t tod : {(int64_t)0, (int64_t)sod - 1, (int64_t)sod, (int64_t)sod + 1, (int64_t)86399}) {
             int64_t t = d * DAY + tod; if (t < 0) continue;
             uint32_t got = 0; bool ok = a.calculateNextLocalTimeSec((uint32_t)t, got);
-            judge(sw, "workday", ok, t, got, ref.next_local(t), fmt("workday sod=%d on_workday=%d week_mask=0x%02x special=%s tz=0 now_local=%" PRId64, sod, on, wm, cal_str(sp).c_str(), t));
+            judge(sw, "workday", ok, t, got, ref.next_local(t), [&] { return fmt("workday sod=%d on_workday=%d week_mask=0x%02x special=%s tz=0 now_local=%" PRId64, sod, on, wm, cal_str(sp).c_str(), t); });
           }
         }
       }
@@ -387,14 +396,14 @@ static int sweep_workday(int part, int nparts, bool thorough) {
         RefCfg ref; ref.kind = RefCfg::WORKDAY; ref.sod = sod; ref.cal_mask = on ? 0x00 : 0x7f; ref.special = sp; ref.on_workday = on; ref.horizon_days = 367;
         for (int64_t tod : {(int64_t)0, (int64_t)sod, (int64_t)86399}) {
           int64_t t = bd * DAY + tod; uint32_t got = 0; bool ok = a.calculateNextLocalTimeSec((uint32_t)t, got);
-          std::string in = fmt("workday sod=%d on_workday=%d only matching day is %d days ahead, tz=0 now_local=%" PRId64, sod, on, gap, t);
+          auto in = [&] { return fmt("workday sod=%d on_workday=%d only matching day is %d days ahead, tz=0 now_local=%" PRId64, sod, on, gap, t); };
           int64_t r = ref.next_local(t);
           judge(sw, "workday", ok, t, got, r, in);
           if (r < 0 && !ok) sw.outcome(fmt("only matching day %d days ahead: not found (beyond the 367-day search horizon)", gap));
           // and the armed delay for that distance through the real activeTimer
           for (int tzm : {0, 480}) { int64_t now = t - tzm * 60; int64_t now_ms = now * 1000 + 123;
             Armed ar = arm_at(a, loop, now_ms, tzm, since_pass);
-            std::string in2 = fmt("workday(activeTimer) sod=%d on_workday=%d only matching day %d days ahead tz_min=%d now_utc=%" PRId64 ".123", sod, on, gap, tzm, now);
+            auto in2 = [&] { return fmt("workday(activeTimer) sod=%d on_workday=%d only matching day %d days ahead tz_min=%d now_utc=%" PRId64 ".123", sod, on, gap, tzm, now); };
             judge(sw, "workday", ar.ok, now, ar.target, ref.next_utc(now, tzm * 60), in2); judge_delay(sw, "workday", ar, now_ms, in2);
             if (a.isEnabled()) a.disable(); }
         }
@@ -445,8 +454,8 @@ static int sweep_cron(int part, int nparts, bool thorough) {
         if (r >= DOMAIN_END || t >= DOMAIN_END) { sw.skipped++; continue; }     // next instant not representable in the 32-bit range
         if (r >= 0) { int y0, y1, m, d; civil_from_days(fdiv(t, DAY), y0, m, d); civil_from_days(fdiv(r, DAY), y1, m, d); if (y1 - y0 > 4) r = -1; }   // beyond CRON_MAX_YEARS_DIFF: "not found" is the accepted answer
         uint32_t got = 0; bool ok = a.calculateNextLocalTimeSec((uint32_t)t, got);
-        std::string in = fmt("cron expr='%s' tz=0 now_local=%" PRId64, c.expr.c_str(), t);
-        if (r < 0 && ok && got == 0xffffffffu) { sw.evals++; sw.viol("cron-invalid-instant-reported-as-found", in + " got=4294967295 (CRON_INVALID_INSTANT) with return value true; no matching instant within 4 years"); continue; }
+        auto in = [&] { return fmt("cron expr='%s' tz=0 now_local=%" PRId64, c.expr.c_str(), t); };
+        if (r < 0 && ok && got == 0xffffffffu) { sw.evals++; sw.viol("cron-invalid-instant-reported-as-found", "", [&] { return in() + " got=4294967295 (CRON_INVALID_INSTANT) with return value true; no matching instant within 4 years"; }); continue; }
         judge(sw, "cron", ok, t, got, r, in);
       }
       // through activeTimer: tz offsets at the extremes and odd quarters, `now` around the local trigger; armed delay
@@ -455,8 +464,8 @@ static int sweep_cron(int part, int nparts, bool thorough) {
         int64_t r = c.ref.next_utc(now, tzm * 60);
         if (r >= 0) { int y0, y1, m, d; civil_from_days(fdiv(now + tzm * 60, DAY), y0, m, d); civil_from_days(fdiv(r + tzm * 60, DAY), y1, m, d); if (y1 - y0 > 4) r = -1; }
         Armed ar = arm_at(a, loop, now_ms, tzm, since_pass);
-        std::string in = fmt("cron(activeTimer) expr='%s' tz_min=%d now_utc=%" PRId64 ".500", c.expr.c_str(), tzm, now);
-        if (r < 0 && ar.ok && ar.target == (int64_t)(uint32_t)(0xffffffffu - (uint32_t)(tzm * 60))) { sw.evals++; sw.viol("cron-invalid-instant-reported-as-found", in + " armed for CRON_INVALID_INSTANT"); }
+        auto in = [&] { return fmt("cron(activeTimer) expr='%s' tz_min=%d now_utc=%" PRId64 ".500", c.expr.c_str(), tzm, now); };
+        if (r < 0 && ar.ok && ar.target == (int64_t)(uint32_t)(0xffffffffu - (uint32_t)(tzm * 60))) { sw.evals++; sw.viol("cron-invalid-instant-reported-as-found", "", [&] { return in() + " armed for CRON_INVALID_INSTANT"; }); }
         else { judge(sw, "cron", ar.ok, now, ar.target, r, in); judge_delay(sw, "cron", ar, now_ms, in); }
         if (a.isEnabled()) a.disable();
       }
